@@ -1,7 +1,7 @@
 (* C19 -- non-vacuity: concrete inputs meet the hypotheses of the theorems. *)
 From Coq Require Import QArith Qcanon ZArith List Arith Bool PrimFloat Lia.
 From Verif.lib Require Import Bsp NpCore NpQ NpF.
-From Verif.C19 Require Import Model Model2 Proofs Proofs2 Proofs4 Proofs5 Proofs6 Proofs8 Proofs9 FloatGridDefs FloatProofs.
+From Verif.C19 Require Import Model Model2 Proofs Proofs2 Proofs4 Proofs5 Proofs6 Proofs8 Proofs9 Proofs10 Proofs11 FloatGridDefs FloatProofs.
 Import ListNotations.
 Open Scope Qc_scope.
 
@@ -114,3 +114,15 @@ Proof. repeat split; vm_compute; reflexivity. Qed.
 Example ex_refine_count : count_occ Qc_eq_dec (refine ex_kv [q 1 3; q 1 4]) (q 1 4) = 3%nat
                           /\ numdofs (refine ex_kv [q 1 3; q 1 4]) 2 = 11%nat.
 Proof. split; vm_compute; reflexivity. Qed.
+
+(* derivative_wellformed on ex_kv (degree 2, 9 coefficients): knots kv[1:-1], 8 coefficients, degree 1 *)
+Example ex_deriv_wf : length (derivative_kv ex_kv) = 10%nat /\ numdofs (derivative_kv ex_kv) 1 = 8%nat
+  /\ length (derivative_coeffs ex_kv 2 (map (fun z => q z 1) [1; 2; 4; 8; 16; 32; 64; 128; 256]%Z)) = 8%nat
+  /\ kv_valid (derivative_kv ex_kv) = true.
+Proof. repeat split; vm_compute; reflexivity. Qed.
+
+(* support_cells: B-spline 3 of ex_kv has knots 3..6 = 1/4,1/4,1/2,1/2; the only non-empty span among
+   3..5 is span 4, which is mesh cell 1 = lo .. hi-1 *)
+Example ex_support_cells : filter (Proofs11.nonempty_span ex_kv) (seq 3 (2 + 1)) = [4]%nat
+                           /\ mesh_support_idx ex_kv 2 3 = (1, 2)%nat /\ k2m ex_kv 4 = 1%nat.
+Proof. repeat split; vm_compute; reflexivity. Qed.
